@@ -270,6 +270,7 @@ func runChan(t *testing.T, c *ChanCase) (term string, viols []vh.Violation, tags
 	_, merr := proto.Marshal(&clusterpb.Part{Key: key, Data: []byte("x")})
 	marshalOK := merr == nil
 	var hist []string
+	capQ := queueCapacity(t) // measured outside the bubble (it runs its own)
 	synctest.Test(t, func(t *testing.T) {
 		r := newRig(key)
 		oversizeBcasts, relEvents, relFailEvents := 0, 0, 0
@@ -288,6 +289,10 @@ func runChan(t *testing.T, c *ChanCase) (term string, viols []vh.Violation, tags
 			for rep := 0; rep < reps; rep++ {
 				var opTerm string
 				d0, _, _ := r.counters()
+				r.mu.Lock()
+				takenBefore := r.peersCalls
+				r.mu.Unlock()
+				obBefore := oversizeBcasts
 				var expect []byte
 				switch op.Kind {
 				case "bcast":
@@ -367,6 +372,21 @@ func runChan(t *testing.T, c *ChanCase) (term string, viols []vh.Violation, tags
 				r.mu.Lock()
 				open, taken := r.open, r.peersCalls
 				r.mu.Unlock()
+				// a drop is legitimate only for an oversized Broadcast that found the queue full: a busy peer or a busy
+				// worker is not a reason to skip or drop
+				if d != d0 {
+					outstanding := obBefore - d0 - takenBefore // queued + in flight before this op
+					if op.Kind != "bcast" || len(expect) <= threshold || outstanding < capQ {
+						violate("dropped-while-queue-not-full", fmt.Sprintf("dropped counter moved by %d in a %s op with %d oversized messages outstanding (queue capacity %d)", d-d0, op.Kind, outstanding, capQ))
+					}
+				}
+				// every message the worker takes is handed to the reliable sender of EVERY current peer at once
+				r.mu.Lock()
+				sum := r.peersSum
+				r.mu.Unlock()
+				if relEvents != sum {
+					violate("reliable-not-to-every-peer", fmt.Sprintf("%d reliable sends started for %d (taken message, current peer) pairs: a peer was skipped", relEvents, sum))
+				}
 				if open && oversizeBcasts != d+taken {
 					violate("oversize-lost-silently", fmt.Sprintf("%d oversized broadcasts so far, %d dropped (counter), %d taken by the worker, queue drained", oversizeBcasts, d, taken))
 				}
@@ -423,6 +443,17 @@ func clamp(d int) int {
 		return -9
 	}
 	return d
+}
+
+var (
+	capOnce sync.Once
+	capVal  int
+)
+
+// queueCapacity: the capacity of Channel.msgc, measured once per run on the real Channel
+func queueCapacity(t *testing.T) int {
+	capOnce.Do(func() { capVal = measureCap(t) })
+	return capVal
 }
 
 // measureCap fills the oversize queue of a fresh Channel while its worker is blocked: accepted = capacity + 1.
@@ -483,7 +514,7 @@ func runWire(t *testing.T, c *WireCase) (string, []vh.Violation, map[string]int)
 			}
 		}
 	}
-	capacity := measureCap(t)
+	capacity := queueCapacity(t)
 	tags[fmt.Sprintf("measured-queue-capacity=%d", capacity)]++
 	return fmt.Sprintf("KWire %s %s %s", vh.List(items), coqBytes(full, pays), vh.Z(int64(capacity))), viols, tags
 }
@@ -577,6 +608,31 @@ func genOverflow(r *vh.Rand) *ChanCase {
 	return c
 }
 
+// genBackToBack: reliable sends that take a while (the stub blocks until released), two or three oversized
+// broadcasts back-to-back — e.g. the nflog entries of two integrations — then release. Every one of them must be
+// handed to every peer once the earlier sends have returned; nothing may be dropped (the queue is far from full).
+func genBackToBack(r *vh.Rand) *ChanCase {
+	c := &ChanCase{Key: vh.Pick(r, [][]byte{[]byte("nfl"), []byte("sil")})}
+	peers := peerNames[:r.Range(1, 3)]
+	c.Ops = append(c.Ops, ChanOp{Kind: "env", Peers: peers, Gate: false})
+	big := innerAtThreshold(c.Key)
+	n := r.Range(2, 3)
+	for i := 0; i < n; i++ {
+		c.Ops = append(c.Ops, ChanOp{Kind: "bcast", Size: big + r.Range(1, 8) + 10*i, Fill: 65})
+		if r.Chance(1, 4) {
+			c.Ops = append(c.Ops, ChanOp{Kind: "bcast", Size: big - r.Intn(4), Fill: 65})
+		}
+	}
+	c.Ops = append(c.Ops, ChanOp{Kind: "env", Peers: peers, Fail: subset(r, peers), Gate: true})
+	c.Ops = append(c.Ops, ChanOp{Kind: "bcast", Size: big + r.Range(1, 8), Fill: 65})
+	if r.Bool() { // and again, with one round still in flight when the peer set changes
+		c.Ops = append(c.Ops, ChanOp{Kind: "env", Peers: peers, Gate: false})
+		c.Ops = append(c.Ops, ChanOp{Kind: "bcast", Size: big + 20, Fill: 65, Rep: 2})
+		c.Ops = append(c.Ops, ChanOp{Kind: "env", Peers: subset(r, peerNames), Gate: true})
+	}
+	return c
+}
+
 func genWire(r *vh.Rand, thorough bool) *WireCase {
 	c := &WireCase{}
 	sizes := []int{0, 1, 2, 126, 127, 128, 129, 300, 692, 693, 700, 701}
@@ -614,6 +670,9 @@ func TestCheck(t *testing.T) {
 		}
 		for i := 0; i < env.N(3, 3); i++ {
 			cases = append(cases, Case{Kind: "chan", Chan: genOverflow(r.Fork())})
+		}
+		for i := 0; i < env.N(8, 4); i++ {
+			cases = append(cases, Case{Kind: "chan", Chan: genBackToBack(r.Fork())})
 		}
 		for i := 0; i < env.N(3, 3); i++ {
 			cases = append(cases, Case{Kind: "frame", Frame: genFrame(r.Fork())})
